@@ -276,8 +276,28 @@ fn drive_worker(
         let stdout = child.stdout.take().unwrap();
         let mut started: Option<u64> = None;
         let mut restart_at: Option<u64> = None;
+        // A worker that says nothing for ten minutes of wall-clock time is frozen for real (for
+        // instance on a lock outside the simulator's seam taken by code under test): it is
+        // killed, which surfaces as a harness error for the case it was running - never a verdict.
+        let last_line = std::sync::Arc::new(std::sync::Mutex::new(Instant::now()));
+        let done = std::sync::Arc::new(std::sync::atomic::AtomicBool::new(false));
+        {
+            let (last_line, done, pid) = (last_line.clone(), done.clone(), child.id() as i32);
+            std::thread::spawn(move || {
+                while !done.load(std::sync::atomic::Ordering::SeqCst) {
+                    std::thread::sleep(Duration::from_secs(5));
+                    if last_line.lock().unwrap().elapsed() > Duration::from_secs(600) && !done.load(std::sync::atomic::Ordering::SeqCst) {
+                        unsafe {
+                            libc::kill(pid, libc::SIGKILL);
+                        }
+                        return;
+                    }
+                }
+            });
+        }
         for line in BufReader::new(stdout).lines() {
             let Ok(line) = line else { break };
+            *last_line.lock().unwrap() = Instant::now();
             if let Some(rest) = line.strip_prefix("S ") {
                 started = rest.trim().parse().ok();
             } else if let Some(rest) = line.strip_prefix("R ") {
@@ -293,6 +313,7 @@ fn drive_worker(
             }
         }
         let status = child.wait().expect("wait worker");
+        done.store(true, std::sync::atomic::Ordering::SeqCst);
         if let Some(n) = restart_at {
             next = n;
             continue;
